@@ -22,6 +22,8 @@ A(i, o, f) == [ins |-> i, outs |-> o, fee |-> f, shift |-> 0, lock |-> 0, nrd |-
 \* 26,27 coinbase 0 / 3 -> 5 outputs each (weight 109): with A the pool outweighs a block (264 + 24 > 250)
 \* 28    coinbase 0 + coinbase 2 -> 144 (weight 26: with A and 8 one over what fits under MineWeight 120)
 \* 29    second NRD kernel (spends coinbase 4)
+\* 30    coinbase 3 (mature) + coinbase 4 (immature): as 24, with the commitments in the other byte order (in 24 the
+\*       immature one comes last among the inputs, in 30 first)
 AtomsFull ==
   <<A({1}, {100, 101}, 46000), A({2}, {102}, 50000), A({100}, {103}, 25000), A({101, 102}, {104}, 26000),
     A({1}, {105}, 75000), A({3}, {106}, 24999),
@@ -33,13 +35,13 @@ AtomsFull ==
     A({0}, {102}, 50000), A({3}, {126}, 250000),
     A({0}, {130}, 25000), A({4, 100}, {131}, 26000), A({0, 5}, {132}, 26000), A({5, 102}, {133}, 26000),
     A({0}, 134..138, 109000), A({3}, 139..143, 109000), A({0, 2}, {144}, 26000),
-    [A({4}, {145}, 25000) EXCEPT !.nrd = TRUE]>>
+    [A({4}, {145}, 25000) EXCEPT !.nrd = TRUE], A({3, 4}, {146}, 26000)>>
 \* {2, 6}, {16, 7}, {2, 15}: an UNDER-paying atom aggregated with a well-paying one; the aggregate as a whole pays enough
 \* (74999 >= 50000; (250000 + 37500) >> 1 >= 50000; 51000 >= 50000), the remainder left after deaggregating the pooled
 \* partner does not
 \* {22, 8}: exact payer without shift + exact payer with shift 1: under-pays as an aggregate; {2, 9}, {2, 10}: an immature
 \* spend / a locked kernel inside an aggregate; {1, 3, 12}, {1, 2, 19}: three kernels, two of them pooled separately
-SubsFull == {{a} : a \in 1..29} \cup {{1, 2}, {1, 3}, {3, 12}, {2, 8}, {2, 6}, {16, 7}, {2, 15}}
+SubsFull == {{a} : a \in 1..30} \cup {{1, 2}, {1, 3}, {3, 12}, {2, 8}, {2, 6}, {16, 7}, {2, 15}}
             \cup {{22, 8}, {2, 9}, {2, 10}, {1, 3, 12}, {1, 2, 19}}
 
 \* small universe for exhaustive checking: parent with two outputs, second parent, child, two-parent child,
@@ -120,9 +122,10 @@ Scripts == <<
   \* 16 (capacity 3): coinbase maturity and lock height of transactions with SEVERAL inputs, one block early and at the
   \*     boundary: immature coinbase + pool output (23), mature + immature coinbase (24), immature coinbase + pool output
   \*     of another parent (25), as fluff, as stem, with lying input features, inside an aggregate whose other half is
-  \*     pooled ({2, 9} immature, {2, 10} locked)
-  <<Sub({1}), Sub({23}), SubF({23}, "mislabelled"), Sub({24}), Sub({2}), Sub({25}), StemSub({23}), Sub({2, 9}), Sub({2, 10}),
-    Blk({}), Sub({23}), Sub({24}), StemSub({25}), Blk({1}), SubF({25}, "declared"), StemSub({24})>>,
+  \*     pooled ({2, 9} immature, {2, 10} locked); after block {2} tx 25 spends a PLAIN unspent output next to the immature
+  \*     coinbase (the looked-up outputs are sorted plain first)
+  <<Sub({1}), Sub({23}), SubF({23}, "mislabelled"), Sub({24}), Sub({30}), SubF({30}, "declared"), StemSub({30}), Sub({2}), Sub({25}), StemSub({23}), Sub({2, 9}), Sub({2, 10}),
+    Blk({2}), Sub({23}), Sub({24}), StemSub({25}), Sub({25}), Blk({1}), SubF({25}, "declared"), StemSub({24})>>,
   \* 17: the fee shift of an aggregate is the maximum of its kernels': 22 (exact, no shift) + 8 (exact at shift 1) under-pays
   \*     as fluff and as stem; once 8 is pooled the remainder 22 is admitted
   <<Sub({22, 8}), StemSub({22, 8}), Sub({8}), Sub({22, 8}), Sub({22})>>,
